@@ -161,6 +161,22 @@ def _sample(path, keep):
     return len(recs), len(out)
 
 
+def _components(run, kinds, names):
+    """Growth: the private building blocks behind this property, driven by TLC-generated operation sequences."""
+    scen = os.path.join(run.workdir, "components_scen.ndjson")
+    run.generate("MC_Components", "MC_Components.cfg", scen, timeout=1200,
+                 note="operation sequences (<= 4 ops over a universe of 3) for FastSet / BfsQueue / LabeledQueue, all "
+                      "deterministic 3-node 2-label graphs for the BFS driver, small compact tables, pairs of partition "
+                      "refinements; ASSUME: BFS through the LabeledQueue spec reaches exactly the reachable nodes")
+    total, kept = _sample(scen, lambda k, r: r["kind"] in kinds)
+    out, info = _drive(run, "components", verb="replay", sub="components", extra=["--scen", scen])
+    run.validate("components", os.path.join(out, "components.ndjson"), "Trace_Components", "Trace_Components.cfg",
+                 ["CMP:" + n for n in names] + ["component "], workers=workers(run), timeout=1500,
+                 nontrivial=lambda r: len(r.get("ops", r.get("steps", r.get("order", [])))) >= 2,
+                 need={k: (lambda r, k=k: r.get("kind") == k) for k in kinds})
+    run.extra["components"] = {"kinds": sorted(kinds), "behaviours": kept}
+
+
 @check("C13")
 def c13(run):
     run.rule = ("behaviours = TLC-generated call sequences of the Builder state machine over states {0,1,2} and the six "
@@ -240,6 +256,7 @@ def c04(run):
                  need={"rounds": lambda r: sum(1 for e in r.get("events", []) if e.get("k") == "pick") >= 3,
                        "self_refine": lambda r: any(e.get("k") == "pick" and set(e["b"]) & set(e["pred"]) for e in r.get("events", []))})
     run.extra["hooked_refinement_runs"] = info3
+    _components(run, {"fastset", "partition"}, ["fastset", "partition"])
     run.exhaustive = True
     run.extra["exhaustive_scope"] = "all complete DFAs with <= 3 states over 2 letters (TLC-enumerated)"
 
@@ -263,6 +280,7 @@ def c14(run):
     run.validate("dfa_random_prune", os.path.join(out2, "dfa_random_prune.ndjson"), "Trace_Automata",
                  "Trace_Automata.cfg", ["C14:", "remove_unreachable", "compile/"], workers=workers(run), nontrivial=nt,
                  need={"compiled": lambda r: r.get("style") == 9}, timeout=3000)
+    _components(run, {"table", "bfsqueue"}, ["compact_table", "bfsqueue"])
     run.exhaustive = True
     run.extra["exhaustive_scope"] = "all complete DFAs with <= 3 states over 2 letters (TLC-enumerated)"
 
@@ -534,6 +552,7 @@ def c05(run):
     run.validate("c05_empty", os.path.join(out, "c05_empty.ndjson"), "Trace_Regex", "Trace_Regex.cfg",
                  ["C05:", "is_empty_re/"], workers=workers(run), nontrivial=_depth_ge1, need=need, timeout=1500)
     run.extra["driver"] = info
+    _components(run, {"labeledqueue", "bfs"}, ["labeledqueue", "bfs"])
 
 
 @check("C18")
@@ -677,7 +696,7 @@ def all_u1(ids):
     models = [("MC_Chars", "MC_Chars.cfg"), ("MC_Regex", "MC_Regex.cfg"), ("MC_Literals", "MC_Literals.cfg"),
               ("MC_Strings", "MC_Strings.cfg"), ("MC_LoopRanges", "MC_LoopRanges.cfg"), ("MC_Dfa", "MC_Dfa.cfg"),
               ("MC_PartGen", "MC_PartGen.cfg"), ("MC_Builder", "MC_Builder.cfg"), ("MC_Manager", "MC_Manager.cfg"),
-              ("MC_Hopcroft", "MC_Hopcroft.cfg"), ("MC_CoverSearch", "MC_CoverSearch.cfg"), ("MC_MergeSweep", "MC_MergeSweep.cfg")]
+              ("MC_Hopcroft", "MC_Hopcroft.cfg"), ("MC_Components", "MC_Components.cfg"), ("MC_Terms", "MC_Terms.cfg"), ("MC_CoverSearch", "MC_CoverSearch.cfg"), ("MC_MergeSweep", "MC_MergeSweep.cfg")]
     bad = 0
     for m, c in models:
         if ids and m not in ids:
